@@ -109,6 +109,7 @@ type interpreter struct {
 	symStrN      int
 	steps        int64
 	solver       *Solver
+	fallback     map[string]*Solver
 	res          *PathResult
 	initDepth    int
 	ifCount      map[*frame]map[*ssa.If]int
